@@ -757,6 +757,20 @@ class Interp:
             return show(node)
 
     def eval(self, node, st):
+        r = self._eval(node, st)
+        # implicit floating -> integer conversion (the extractor strips ImplicitCastExpr but keeps the outer type T and the inner type
+        # Ti): the value is truncated, e.g. abs(x) with the integer abs, or `int n = d`
+        if node.get('Ti') in ('double', 'float', 'long double') and node.get('T') in INT_TYPES and node.get('k') not in (
+                'CStyleCastExpr', 'IntegerLiteral'):
+            n_ = reduce_trig(r.n)
+            if r.d.is_const() and n_.is_const():
+                return Rat.const(int(n_.const_value() / r.d.const_value()))
+            s = '(int)(%s)' % r.canon()
+            self.types[s] = 'int'
+            return Rat.sym(s)
+        return r
+
+    def _eval(self, node, st):
         k = node.get('k')
         c = node.get('c', [])
         if 'v' in node and k in ('BinaryOperator', 'UnaryOperator', 'ConditionalOperator') and node.get('op') not in ('=', '++', '--'):
